@@ -23,6 +23,8 @@ import (
 	"verif/mc/world"
 )
 
+var Verbose bool
+
 type Runner struct {
 	W *world.World
 	M *model.Model
@@ -71,6 +73,33 @@ func SubRequest(c model.SubCfg) *pubsubpb.Subscription {
 	return req
 }
 
+func (r *Runner) liveViews(o *model.Obs) {
+	tick := r.W.SeqTick
+	r.W.SeqTick = false
+	defer func() { r.W.SeqTick = tick }()
+	o.LiveBySubMsg = map[string]int{}
+	o.LiveTopics = map[string]int{}
+	o.LiveSubs = map[string]int{}
+	q := func(sql string, f func(a, b string)) {
+		rs, err := r.W.DB.Query(sql)
+		if err != nil {
+			panic(err)
+		}
+		defer rs.Close()
+		for rs.Next() {
+			var a, b string
+			if err := rs.Scan(&a, &b); err != nil {
+				panic(err)
+			}
+			f(a, b)
+		}
+	}
+	q("SELECT s.name, d.message_id FROM deliveries d JOIN subscriptions s ON s.id = d.subscription_id WHERE s.deleted_at IS NULL AND d.completed_at IS NULL",
+		func(a, b string) { o.LiveBySubMsg[a+"|"+b]++ })
+	q("SELECT name, '' FROM topics WHERE deleted_at IS NULL", func(a, _ string) { o.LiveTopics[a]++ })
+	q("SELECT name, '' FROM subscriptions WHERE deleted_at IS NULL", func(a, _ string) { o.LiveSubs[a]++ })
+}
+
 func (r *Runner) rows() map[string]model.Row {
 	tick := r.W.SeqTick
 	r.W.SeqTick = false
@@ -114,12 +143,7 @@ func (r *Runner) Exec(c model.Call) model.Obs {
 	case "deleteTopic":
 		_, err = w.Pub.DeleteTopic(ctx, &pubsubpb.DeleteTopicRequest{Topic: model.TopicPath(c.Op.Topic)})
 	case "createSub":
-		var cfg model.SubCfg
-		for _, s := range r.M.Cfg.Subs {
-			if s.Name == c.Op.Sub {
-				cfg = s
-			}
-		}
+		cfg, _ := r.M.SubCfgFor(c.Op)
 		_, err = w.Sub.CreateSubscription(ctx, SubRequest(cfg))
 		if err == nil && cfg.Delay > 0 {
 			// what controllers/delay-injector.go PutDelay does
@@ -189,12 +213,84 @@ func (r *Runner) Exec(c model.Call) model.Obs {
 		o.N, err = j.Run(ctx, w.Client, actions.PruneCommonParams{MinAge: c.Op.MinAge, MaxDelete: c.Op.MaxDel})
 	case "tick":
 		w.TickTo(c.Time)
+	case "getTopic":
+		var t *pubsubpb.Topic
+		t, err = w.Pub.GetTopic(ctx, &pubsubpb.GetTopicRequest{Topic: model.TopicPath(c.Op.Topic)})
+		if err == nil {
+			o.Names = []string{t.Name}
+		}
+	case "getSub":
+		var s *pubsubpb.Subscription
+		s, err = w.Sub.GetSubscription(ctx, &pubsubpb.GetSubscriptionRequest{Subscription: model.SubPath(c.Op.Sub)})
+		if err == nil {
+			o.Names = []string{s.Name}
+			o.Got = &model.SubView{Topic: s.Topic, Filter: s.Filter, Ordered: s.EnableMessageOrdering}
+			if s.DeadLetterPolicy != nil {
+				o.Got.DLTopic = s.DeadLetterPolicy.DeadLetterTopic
+				o.Got.MaxAttempts = int(s.DeadLetterPolicy.MaxDeliveryAttempts)
+			}
+		}
+	case "getSnap":
+		var s *pubsubpb.Snapshot
+		s, err = w.Sub.GetSnapshot(ctx, &pubsubpb.GetSnapshotRequest{Snapshot: model.SnapPath(c.Op.Name)})
+		if err == nil {
+			o.Names = []string{s.Name}
+		}
+	case "delSnap":
+		_, err = w.Sub.DeleteSnapshot(ctx, &pubsubpb.DeleteSnapshotRequest{Snapshot: model.SnapPath(c.Op.Name)})
+	case "listTopics", "listSubs", "listSnaps", "listTopicSubs":
+		// walk every page with the requested page size
+		token := ""
+		for page := 0; page < 1000; page++ {
+			var next string
+			switch c.Op.K {
+			case "listTopics":
+				var resp *pubsubpb.ListTopicsResponse
+				resp, err = w.Pub.ListTopics(ctx, &pubsubpb.ListTopicsRequest{Project: model.ProjectPath(c.Op.Tgt), PageSize: int32(c.Op.Max), PageToken: token})
+				if err == nil {
+					for _, t := range resp.Topics {
+						o.Names = append(o.Names, t.Name)
+					}
+					next = resp.NextPageToken
+				}
+			case "listSubs":
+				var resp *pubsubpb.ListSubscriptionsResponse
+				resp, err = w.Sub.ListSubscriptions(ctx, &pubsubpb.ListSubscriptionsRequest{Project: model.ProjectPath(c.Op.Tgt), PageSize: int32(c.Op.Max), PageToken: token})
+				if err == nil {
+					for _, t := range resp.Subscriptions {
+						o.Names = append(o.Names, t.Name)
+					}
+					next = resp.NextPageToken
+				}
+			case "listSnaps":
+				var resp *pubsubpb.ListSnapshotsResponse
+				resp, err = w.Sub.ListSnapshots(ctx, &pubsubpb.ListSnapshotsRequest{Project: model.ProjectPath(c.Op.Tgt), PageSize: int32(c.Op.Max), PageToken: token})
+				if err == nil {
+					for _, t := range resp.Snapshots {
+						o.Names = append(o.Names, t.Name)
+					}
+					next = resp.NextPageToken
+				}
+			case "listTopicSubs":
+				var resp *pubsubpb.ListTopicSubscriptionsResponse
+				resp, err = w.Pub.ListTopicSubscriptions(ctx, &pubsubpb.ListTopicSubscriptionsRequest{Topic: model.TopicPath(c.Op.Topic), PageSize: int32(c.Op.Max), PageToken: token})
+				if err == nil {
+					o.Names = append(o.Names, resp.Subscriptions...)
+					next = resp.NextPageToken
+				}
+			}
+			if err != nil || next == "" {
+				break
+			}
+			token = next
+		}
 	default:
 		panic(fmt.Sprintf("exec: unknown op %q", c.Op.K))
 	}
 	o.T1 = w.Now()
 	o.Err = errCode(err)
 	o.Rows = r.rows()
+	r.liveViews(&o)
 	if r.Sep > 0 {
 		w.Tick(r.Sep)
 	}
@@ -209,18 +305,44 @@ func (r *Runner) Do(op model.Op) (enabled bool, call model.Call, obs model.Obs, 
 	}
 	obs = r.Exec(call)
 	hits = r.M.Apply(call, obs)
+	if Verbose {
+		fmt.Printf("  %-28s t=%v err=%q ids=%d msgs=%d", op.Label(), obs.T0.Sub(time.Date(2000, 1, 1, 0, 0, 0, 0, time.UTC)), obs.Err, len(obs.IDs), len(obs.Msgs))
+		for _, m := range obs.Msgs {
+			fmt.Printf(" [%s att=%d ack=%s]", m.MsgID[:8], m.Attempt, m.AckID[:8])
+		}
+		if len(call.AckIDs) > 0 {
+			fmt.Printf(" ackids=%v", call.AckIDs)
+		}
+		fmt.Println()
+		for _, h := range hits {
+			fmt.Println("     HIT", h)
+		}
+	}
 	return
 }
 
 // Setup creates the configured topics and subscriptions through the API.
 func (r *Runner) Setup() error {
+	lazy := map[string]bool{}
+	for _, n := range r.M.Cfg.Lazy {
+		lazy[n] = true
+	}
+	for _, n := range r.M.Cfg.LazyTopics {
+		lazy["T:"+n] = true
+	}
 	for _, t := range r.M.Cfg.Topics {
+		if lazy["T:"+t] {
+			continue
+		}
 		_, _, obs, hits := r.Do(model.Op{K: "createTopic", Topic: t})
 		if obs.Err != "" || len(hits) > 0 {
 			return fmt.Errorf("setup createTopic(%s): %s %v", t, obs.Err, hits)
 		}
 	}
 	for _, s := range r.M.Cfg.Subs {
+		if lazy[s.Name] {
+			continue
+		}
 		_, _, obs, hits := r.Do(model.Op{K: "createSub", Sub: s.Name})
 		if obs.Err != "" || len(hits) > 0 {
 			return fmt.Errorf("setup createSub(%s): %s %v", s.Name, obs.Err, hits)
